@@ -792,3 +792,12 @@ package objects
 //@   at[release] call objects.Allocation.SetReleased#1: assert arg0 == phFit && arg1
 //@   at[unwind] call objects.Node.RemoveAllocation#1 after: assert forall t Key :: rv(node.availableResource, t) == old(rv(node.availableResource, t)) && rv(node.allocatedResource, t) == old(rv(node.allocatedResource, t))
 //@   at[revert] call objects.Node.RemoveAllocation#2 after: assert forall t Key :: rv(node.availableResource, t) == old(rv(node.availableResource, t)) && rv(node.allocatedResource, t) == old(rv(node.allocatedResource, t))
+
+// placeholder timeout (runs in a timer goroutine: a panic here takes the scheduler down): the per-task-group counter
+// is only touched for task groups that have tracking data
+//@ func (sa *Application) timeoutPlaceholderProcessing()
+//@   props C06 C13
+//@   sweep
+//@   mode nopanic=off
+//@   at[tracked] fieldaddr PlaceholderData.TimedOut#*: assert base != nil
+//@   at[releaseall] call objects.Application.removeAsksInternal#1: assert arg1 == ""
